@@ -137,10 +137,11 @@ def C17_delivery_exact_full : Prop :=
     let o := (s.handlePublish peer ident space topic msgIdent relayed idLenOk big).2
     -- at most one copy per stream
     o.delivered.Nodup ∧
-    -- a stream gets the message iff the publisher conditions hold and one of ITS registered
-    -- patterns of that space matches the topic segment by segment
+    -- a stream gets the message iff the publisher conditions hold, the stream is (still) in the pool
+    -- and one of ITS registered patterns of that space matches the topic segment by segment
     (∀ sid, sid ∈ o.delivered ↔
       (s.publishAccepted peer ident space topic msgIdent relayed idLenOk big = true ∧
+        (∃ st, st ∈ s.pool ∧ st.sid = sid) ∧
         ∃ p, s.Reg sid space p ∧ segMatches (splitTopic p) (splitTopic topic) = true)) ∧
     -- forwarded to the other responsible nodes exactly once, marked relayed, iff accepted and not
     -- itself relayed: a relayed message is never forwarded again
@@ -200,8 +201,8 @@ theorem views_agree_open (sid : Nat) (peer ident : String) : KeepsInv (.openStre
   split
   · exact h
   · rename_i hf
-    have hf' : s.poolStream sid = none := by simpa using hf
-    exact Agree_openStream h sid peer ident hf'
+    simp only [Bool.or_eq_true, not_or, Bool.not_eq_true, Option.isSome_eq_false_iff, Option.isNone_iff_eq_none] at hf
+    exact Agree_openStream h sid peer ident hf.1 hf.2
 
 theorem views_agree_publish (peer ident space topic msgIdent : String) (relayed idLenOk big : Bool) :
     KeepsInv (.publish peer ident space topic msgIdent relayed idLenOk big) := by
@@ -229,6 +230,21 @@ theorem views_agree_closeSpace (space : String) : KeepsInv (.closeSpace space) :
 theorem views_agree_closeStream (sid : Nat) : KeepsInv (.closeStream sid) :=
   fun _ h => Agree_closeStream h sid
 
+/-- the pool's removal of a closing stream — which may fall anywhere, also inside a handler that
+is calling into the pool — keeps the invariant (the stream's record stays until its hook runs) -/
+theorem views_agree_poolRemove (sid : Nat) : KeepsInv (.poolRemove sid) :=
+  fun _ h => Agree_poolRemove h sid
+
+/-- the close hook of a stream the pool has dropped keeps the invariant -/
+theorem views_agree_closeHook (sid : Nat) : KeepsInv (.closeHook sid) := by
+  intro s h
+  simp only [NodeSt.step]
+  split
+  · exact h
+  · rename_i hf
+    have hf' : s.poolStream sid = none := by simpa using hf
+    exact Agree_onStreamClose h sid ((poolStream_none_iff s sid).mp hf')
+
 /-- `handleUnsubscribe` keeps the invariant -/
 theorem views_agree_unsubscribe (sid : Nat) (space : String) (topics : List String) :
     KeepsInv (.unsubscribe sid space topics) :=
@@ -249,6 +265,8 @@ theorem views_agree_step (op : NodeOp) : KeepsInv op := by
   | publish peer ident space topic msgIdent relayed idLenOk big =>
     exact views_agree_publish peer ident space topic msgIdent relayed idLenOk big
   | closeStream sid => exact views_agree_closeStream sid
+  | poolRemove sid => exact views_agree_poolRemove sid
+  | closeHook sid => exact views_agree_closeHook sid
   | evict space acct => exact views_agree_evict space acct
   | revalidate space => exact views_agree_revalidate space
   | closeSpace space => exact views_agree_closeSpace space
@@ -272,26 +290,51 @@ def C17_teardown_full : Prop :=
     let s := ({ capSpace := a, capStream := b, burst := c } : NodeSt).run ops
     (∀ sid sp p, ¬ s.Reg sid sp p) → s.Clean
 
-/-- in any state satisfying the invariant, "nothing registered" implies "all bookkeeping empty";
-in particular once every stream is closed -/
+/-- in any state satisfying the invariant, "nothing registered" implies "all bookkeeping empty" -/
 theorem teardown_of_invariant (s : NodeSt) (h : s.Agree) :
-    ((∀ sid sp p, ¬ s.Reg sid sp p) → s.Clean) ∧ (s.pool = [] → s.Clean) := by
-  refine ⟨clean_of_no_reg h, fun hp => clean_of_no_reg h ?_⟩
-  intro sid sp p hreg
-  obtain ⟨st, hst, _⟩ := h.inPool sid sp p hreg
-  simp [hp] at hst
+    (∀ sid sp p, ¬ s.Reg sid sp p) → s.Clean := clean_of_no_reg h
 
 /-- **teardown_empties.** For every history: once nothing is registered any more, the space tries,
 the per-stream records and the stream tags are all empty. -/
 theorem teardown_empties : C17_teardown_full := by
   intro a b c ops
-  exact (teardown_of_invariant _ (views_agree a b c ops)).1
+  exact teardown_of_invariant _ (views_agree a b c ops)
 
-/-- … in particular after every stream has closed, whatever happened before -/
-theorem teardown_all_closed (a b c : Nat) (ops : List NodeOp)
-    (hp : (({ capSpace := a, capStream := b, burst := c } : NodeSt).run ops).pool = []) :
-    (({ capSpace := a, capStream := b, burst := c } : NodeSt).run ops).Clean :=
-  (teardown_of_invariant _ (views_agree a b c ops)).2 hp
+/-- a stream's close hook (hence a complete stream close) leaves nothing registered for it -/
+theorem close_removes_interest (s : NodeSt) (sid : Nat) (sp p : String) :
+    ¬ (s.onStreamClose sid).Reg sid sp p ∧ ¬ (s.closeStream sid).Reg sid sp p := by
+  have key : ∀ s' : NodeSt, ¬ (s'.onStreamClose sid).Reg sid sp p := by
+    intro s'
+    rintro ⟨r, hl, _⟩
+    cases ho : alookup sid s'.streams with
+    | none => simp [NodeSt.onStreamClose, ho] at hl
+    | some r0 =>
+      rw [onStreamClose_unfold s' sid r0 ho] at hl
+      simp [alookup_aerase_same] at hl
+  exact ⟨key s, key _⟩
+
+/-- **the close-inside-subscribe schedule.** The pool drops stream `sid` while its own Subscribe
+frame is inside `handleSubscribe` (which, holding `remoteMu`, finishes first — tagging fails, the
+accepted interest is rolled back), then the close hook runs. The invariant holds afterwards and
+nothing stays registered for the stream; this is the history `[poolRemove, subscribe, closeHook]`,
+an instance of `views_agree`. The lock discipline itself (the hook cannot run inside the handler)
+is an assumption about the code, checked by the harness's schedule points. -/
+theorem subscribe_close_race (s : NodeSt) (h : s.Agree) (sid : Nat) (peer ident space : String)
+    (topics : List String) :
+    let s' := ((s.step (.poolRemove sid)).step (.subscribe sid peer ident space topics)).step (.closeHook sid)
+    s'.Agree ∧ ∀ sp p, ¬ s'.Reg sid sp p := by
+  refine ⟨views_agree_step _ _ (views_agree_step _ _ (views_agree_step _ _ h)), fun sp p => ?_⟩
+  simp only [NodeSt.step]
+  have hnp : (((s.poolRemove sid).handleSubscribe sid peer ident space topics).1.poolStream sid) = none := by
+    rw [poolStream_none_iff]
+    intro st hst heq
+    have hm : sid ∈ ((s.poolRemove sid).handleSubscribe sid peer ident space topics).1.pool.map (·.sid) :=
+      List.mem_map.mpr ⟨st, hst, heq⟩
+    rw [handleSubscribe_pool_sids] at hm
+    obtain ⟨st0, hst0, h0⟩ := List.mem_map.mp hm
+    exact not_mem_pool_poolRemove s sid st0 hst0 h0
+  simp only [hnp, Option.isSome_none, Bool.false_eq_true, if_false]
+  exact (close_removes_interest _ sid sp p).1
 
 /-- **delivery_exact over histories.** In every state reached from an empty service by any operation
 sequence, a publish frame is delivered exactly as the property says (no hypothesis left: the
@@ -303,6 +346,7 @@ theorem delivery_exact_reachable (a b c : Nat) (ops : List NodeOp)
     o.delivered.Nodup ∧
     (∀ sid, sid ∈ o.delivered ↔
       (s.publishAccepted peer ident space topic msgIdent relayed idLenOk big = true ∧
+        (∃ st, st ∈ s.pool ∧ st.sid = sid) ∧
         ∃ p, s.Reg sid space p ∧ segMatches (splitTopic p) (splitTopic topic) = true)) ∧
     o.forwards = (if s.publishAccepted peer ident space topic msgIdent relayed idLenOk big && !relayed
                   then [true] else []) :=
